@@ -328,6 +328,7 @@ type request struct {
 	FeeStr    string
 	TxFn      string
 	Apply     int // 0 default(true), 1 -a=false, 2 cfg apply2bal=false, 3 -a=true
+	Prompt    int // 0 off; 1 -prompt answered y; 2 -prompt answered n; 3 cfg prompt=true answered n; 4 cfg prompt=true answered y
 	Mode      string
 	Need      *big.Int // total the inputs must cover (payments + fee)
 	Underflow bool     // -f with first amount < fee
@@ -343,6 +344,10 @@ type request struct {
 }
 
 func (q *request) applies() bool { return q.Apply == 0 || q.Apply == 3 }
+
+// declined: the user answers "n" at the confirmation prompt
+func (q *request) declined() bool { return q.Prompt == 2 || q.Prompt == 3 }
+
 
 func (q *request) pays() []dest {
 	return append(append([]dest{}, q.Send...), q.Batch...)
@@ -413,6 +418,9 @@ func genRequest(r *vlib.Rand, w *wcfg, st *state) *request {
 	}
 	if r.Chance(3, 10) {
 		q.Apply = 1 + r.Intn(3)
+	}
+	if r.Chance(1, 8) {
+		q.Prompt = 1 + r.Intn(4) // confirmation before the file is written: accepted or declined
 	}
 
 	// destinations
@@ -665,6 +673,12 @@ func (q *request) args() (args []string, cfg string) {
 	}
 	if q.TxFn != "" {
 		args = append(args, "-txfn", q.TxFn)
+	}
+	switch q.Prompt {
+	case 1, 2:
+		args = append(args, "-prompt")
+	case 3, 4:
+		c.WriteString("prompt=true\n")
 	}
 	switch q.Apply {
 	case 1:
